@@ -122,46 +122,101 @@ def leaves_class(version):
     'one placeholder per shape class (templates with two or more operators)'
     out = [var(c) for c in ('@S', '@V2', '@V3', '@M22', '@M23', '@T')] + [('num', '2')]
     if version == 1:
-        out += [('normal', '#'), ('eye', '$', '##'), ('arg', 'p', ''), ('arg', 'q', '#'), ('jac',), ('call', 'sum', '', '', [('omit', 'u')])]
+        out += [('normal', '#'), ('eye', '$', '##'), ('arg', 'p', ''), ('arg', 'q', '#')]
     return out
 
 
 # ------------------------------------------------------------------ templates
 
-def templates(version, tier):
+def maxops_of(tier):
+    return 2 if tier == 'quick' else 3
+
+
+def templates(version, tier, want='all', part=0, of=1):
     '''yield (ops, template): ops = number of semantic operators.
-    ops<=1 templates use named leaves, deeper ones shape-class leaves.'''
-    maxops = 2 if tier == 'quick' else 3
+    Templates with <=1 operator ('low') use named leaves (plus the three-operand
+    sums and products over shape-class leaves); deeper ones ('high') shape-class
+    leaves.  Only templates whose running number is part modulo of are built.'''
+    maxops = maxops_of(tier)
     U = unary_ops(version, tier)
     B = binary_ops(version, tier)
     T3 = ternary_ops(version, tier)
-    L1 = leaves_named(version)
     LC = leaves_class(version)
-    for l in L1:
-        yield 0, l
-    for n, op in U:
+    counter = [0]
+
+    def mine():
+        counter[0] += 1
+        return (counter[0] - 1) % of == part
+
+    if want == 'corrupt':
+        # small strings over shape-class leaves: the bases of the single-character corruptions in the quick tier
+        for l in LC:
+            if mine():
+                yield 0, l
+        for n, op in U:
+            for l in LC:
+                if mine():
+                    t = op(l)
+                    if t is not None:
+                        yield 1, t
+        for n, op in B:
+            for x in LC:
+                for y in LC:
+                    if mine():
+                        t = op(x, y)
+                        if t is not None:
+                            yield 1, t
+        return
+    if want in ('all', 'low'):
+        L1 = leaves_named(version)
         for l in L1:
-            t = op(l)
-            if t is not None:
-                yield 1, t
-    for n, op in B:
-        for x in L1:
-            for y in L1:
-                t = op(x, y)
-                if t is not None:
-                    yield 1, t
+            if mine():
+                yield 0, l
+        for n, op in U:
+            for l in L1:
+                if mine():
+                    t = op(l)
+                    if t is not None:
+                        yield 1, t
+        for n, op in B:
+            for x in L1:
+                for y in L1:
+                    if mine():
+                        t = op(x, y)
+                        if t is not None:
+                            yield 1, t
+        for n, op in T3:
+            for x in LC:
+                for y in LC:
+                    for z in LC:
+                        if mine():
+                            t = op(x, y, z)
+                            if t is not None:
+                                yield 1, t
+    if want == 'low':
+        return
     # trees over class leaves by number of operators; level k = list of (template, nleaves)
     byops = {0: [(l, 1) for l in LC]}
     maxleaves = 3 if tier == 'quick' else 4
     for nops in range(1, maxops + 1):
+        last = nops == maxops
+        emit = nops >= 2
         cur = []
+
+        def handle(t, nl):
+            if t is not None and last and tier == 'quick' and nl >= 3 and has_space(t):
+                return False    # quick tier: mesh dependent constructs (expensive to evaluate) only in trees with <=2 leaves
+            if t is not None and opdepth(t) <= 3:
+                if not last:
+                    cur.append((t, nl))
+                return True
+            return False
         for n, op in U:
             for x, nl in byops[nops - 1]:
-                if A.depth(x) >= 3 and False:
-                    continue
-                t = op(x)
-                if t is not None:
-                    cur.append((t, nl))
+                if not last or mine():
+                    t = op(x)
+                    if handle(t, nl) and emit and (last or mine()):
+                        yield nops, t
         for n, op in B:
             for i in range(nops):
                 j = nops - 1 - i
@@ -169,10 +224,13 @@ def templates(version, tier):
                     for y, nly in byops[j]:
                         if nlx + nly > maxleaves:
                             continue
-                        t = op(x, y)
-                        if t is not None:
-                            cur.append((t, nlx + nly))
+                        if not last or mine():
+                            t = op(x, y)
+                            if handle(t, nlx + nly) and emit and (last or mine()):
+                                yield nops, t
         for n, op in T3:
+            if version == 1 and tier == 'quick' and nops >= 2:
+                break
             for i in range(nops):
                 for j in range(nops - i):
                     k = nops - 1 - i - j
@@ -183,14 +241,27 @@ def templates(version, tier):
                             for z, nlz in byops[k]:
                                 if nlx + nly + nlz > maxleaves:
                                     continue
-                                t = op(x, y, z)
-                                if t is not None:
-                                    cur.append((t, nlx + nly + nlz))
-        cur = [(t, nl) for t, nl in cur if opdepth(t) <= 3]
+                                if nops == 1:
+                                    # the plain three-operand forms are emitted with the 'low' templates
+                                    t = op(x, y, z)
+                                    handle(t, nlx + nly + nlz)
+                                    continue
+                                if not last or mine():
+                                    t = op(x, y, z)
+                                    if handle(t, nlx + nly + nlz) and emit and (last or mine()):
+                                        yield nops, t
         byops[nops] = cur
-        for t, nl in cur:
-            if nops >= 2 or nl >= 3:
-                yield nops, t
+
+
+SPACE_KINDS = ('jump', 'mean', 'grad', 'normal', 'jac')
+
+
+def has_space(node):
+    'does the tree involve the mesh (gradient, jump, mean, normal, geometry)?'
+    k = node[0]
+    if k in SPACE_KINDS or (k == 'call' and node[1] == 'D') or (k == 'var' and node[1] in ('x', 'n')):
+        return True
+    return any(has_space(c) for c in children(node))
 
 
 def opdepth(node):
@@ -357,17 +428,20 @@ def assignments(nslots, maxnum, maxletters):
                     yield ''.join(chars)
 
 
-def instances(version, tier, part=0, of=1, maxops=None, corrupt_base=False):
-    '''yield (ops, ast) for every valid instance of the templates with index % of == part.'''
+def instances(version, tier, want='all', part=0, of=1, maxops=None):
+    '''yield (ops, ast) for every valid instance of the templates number part modulo of.'''
     maxletters = 3 if tier == 'quick' else 4
-    for it, (ops, t) in enumerate(templates(version, tier)):
-        if it % of != part:
-            continue
+    for ops, t in templates(version, tier, want, part, of):
         if maxops is not None and ops > maxops:
             continue
         ns = count_slots(t)
         nleaves = count_leaves(t)
-        maxnum, cap = bounds(tier, ops, nleaves, ns)
+        if want == 'corrupt':
+            maxnum, cap = (1, 5) if nleaves <= 1 else (0, 4)
+        else:
+            maxnum, cap = bounds(tier, ops, nleaves, ns, version)
+            if version == 1 and tier == 'quick' and ops >= 2 and nleaves >= 2 and has_space(t):
+                cap = 3     # quick tier: mesh dependent strings are expensive to evaluate
         if ns > cap:
             continue
         for chars in assignments(ns, maxnum, maxletters + (1 if nleaves <= 1 else 0)):
@@ -379,13 +453,15 @@ def instances(version, tier, part=0, of=1, maxops=None, corrupt_base=False):
             yield ops, node
 
 
-def bounds(tier, ops, nleaves, ns):
+def bounds(tier, ops, nleaves, ns, version=2):
     'maximal number of numerals among the index positions, and maximal number of index positions'
     q = tier == 'quick'
     if nleaves <= 1:
         return (ns if ops <= 1 else (1 if q else 2)), 99
     if ops <= 1 and nleaves == 2:
         return (1 if q else 2), 6
+    if version == 1 and q and nleaves >= 3 and ops >= 2:
+        return 0, 3
     return (0 if q else 1), (4 if q else 5)
 
 
@@ -398,14 +474,14 @@ def count_leaves(node):
     return sum(count_leaves(c) for c in children(node))
 
 
-def relabelings(node, version, labels):
+def relabelings(node, version, labels, reverse_only=False):
     '''the same tree with the index letters renamed by every non-identity
     permutation (the alphabetical order of the letters matters for `@` in v2)'''
     used = sorted(A._letters(node))
     if len(used) < 2 or len(labels) < 2:
         return
     perms = list(itertools.permutations(used))
-    if len(used) > 3:
+    if len(used) > 3 or reverse_only:
         perms = [tuple(used), tuple(reversed(used))]
     for p in perms:
         if list(p) == used:
